@@ -1131,15 +1131,30 @@ def Editor.ack (e : Editor D L) : Editor D L := { e with shared := { e.shared wi
 def Editor.leaveIfEmpty (e : Editor D L) : Editor D L :=
   if env.sylIsEmpty e.shared.syl && e.state == .enteringSyllable then { e with state := .entering } else e
 
+/-- `Editor::revalidate_selecting` (the F32 repair): after an API call that may have changed the page size
+    or what an open list shows, the current page is clamped below the page count and a list that has become
+    empty is closed (`cancel_selecting`: the saved cursor is restored) -/
+def Editor.revalidate (e : Editor D L) : Outcome (Editor D L) :=
+  match e.state with
+  | .selecting s =>
+    match Selecting.totalPage env s e.shared with
+    | .ok tp =>
+      if tp == 0 then .ok { shared := Shared.cancelSelecting e.shared, state := .entering }
+      else if s.pageNo ≥ tp then .ok { e with state := .selecting { s with pageNo := tp - 1 } }
+      else .ok e
+    | .panic p => .panic p
+    | .outOfFuel => .outOfFuel
+  | _ => .ok e
+
 /-- `Editor::clear_syllable_editor` -/
 def Editor.clearSyllableEditor (e : Editor D L) : Editor D L :=
   Editor.leaveIfEmpty env { e with shared := { e.shared with syl := env.clearSyl e.shared.syl } }
 
-/-- `Editor::set_syllable_editor` -/
+/-- `Editor::set_syllable_editor`, up to its final `revalidate_selecting` (see `Editor.apply`) -/
 def Editor.setLayout (e : Editor D L) (l : L) : Editor D L :=
   Editor.leaveIfEmpty env { e with shared := { e.shared with syl := l } }
 
-/-- `Editor::set_editor_options` -/
+/-- `Editor::set_editor_options`, up to its final `revalidate_selecting` (see `Editor.apply`) -/
 def Editor.setOptions (e : Editor D L) (o : Options) : Editor D L :=
   let sh := e.shared
   let sh := if sh.options.languageMode != o.languageMode then { sh with syl := env.clearSyl sh.syl } else sh
@@ -1244,7 +1259,8 @@ inductive Op (L : Type) where
   | unlearn (syllables : List Nat) (phrase : Text)
   | jump (which : Nat)
 
-/-- one operation (return codes dropped) -/
+/-- one operation (return codes dropped).  The option / layout / dictionary calls end with
+    `revalidate_selecting` (F32 repair): an open list stays consistently paged. -/
 def Editor.apply (e : Editor D L) : Op L → Outcome (Editor D L)
   | .key ev => (e.processKey env ev).map (·.1)
   | .select n => (e.select env n).map (·.1)
@@ -1254,11 +1270,15 @@ def Editor.apply (e : Editor D L) : Op L → Outcome (Editor D L)
   | .clear => .ok (e.clear env)
   | .ack => .ok e.ack
   | .clearSyl => .ok (e.clearSyllableEditor env)
-  | .setOptions o => .ok (e.setOptions env o)
-  | .setLayout l => .ok (e.setLayout env l)
+  | .setOptions o => Editor.revalidate env (e.setOptions env o)
+  | .setLayout l => Editor.revalidate env (e.setLayout env l)
   | .setEngine k => .ok { e with shared := { e.shared with engine := k } }
-  | .learn k p => (Shared.learnPhrase env e.shared k p).map fun (sh, _) => { e with shared := sh }
-  | .unlearn k p => .ok { e with shared := Shared.unlearnPhrase env e.shared k p }
+  | .learn k p =>
+    match Shared.learnPhrase env e.shared k p with
+    | .ok (sh, _) => Editor.revalidate env { e with shared := sh }
+    | .panic q => .panic q
+    | .outOfFuel => .outOfFuel
+  | .unlearn k p => Editor.revalidate env { e with shared := Shared.unlearnPhrase env e.shared k p }
   | .jump w => (e.jump env w).map (·.1)
 
 /-- a history -/
